@@ -136,7 +136,7 @@ public:
     // numeric relations as conditions (no forking). Non-finite kinds are compared concretely.
     cond<real> eq(real const& a, real const& b)
     {
-        if (a.k == FIN && b.k == FIN) return cond<real>(a.e == b.e);
+        if (a.k == FIN && b.k == FIN) return cond<real>(eqn(a.e, b.e));
         return cond<real>(a.k != NANK && a.k == b.k);
     }
     // identical: equal, or the same kind of non-finite value (NaN identical to NaN)
@@ -157,7 +157,11 @@ public:
         if (a.k == NANK || b.k == NANK) return cond<real>(false);
         return cond<real>(a.k != b.k && (a.k == NINF || b.k == PINF));
     }
+#ifdef SYM_FP
+    cond<real> finite(real const& a) { return cond<real>(!special_bool(a.e)); }
+#else
     cond<real> finite(real const& a) { return cond<real>(a.k == FIN); }
+#endif
     cond<real> truth(bool b) { return cond<real>(b); }
 
     std::string show(real const& a)
@@ -209,9 +213,25 @@ public:
         {
             z3::expr val = m.eval(g.inputs[i], true);
             std::string s;
+#ifdef SYM_FP
+            {
+                // value of a floating point input: exact decimal expansion through the IEEE bit pattern
+                z3::expr bits = val.mk_to_ieee_bv().simplify();
+                std::string b = bits.is_numeral() ? bits.get_decimal_string(0) : std::string("0");
+                unsigned __int128 w = 0;
+                for (char ch : b) if (ch >= '0' && ch <= '9') w = w * 10 + static_cast<unsigned>(ch - '0');
+                SYM_NATIVE x = 0;
+                std::memcpy(&x, &w, SYM_DIGITS == 64 ? 10 : sizeof(SYM_NATIVE));
+                std::ostringstream o;
+                o.precision(40);
+                o << x;
+                s = o.str();
+            }
+#else
             if (val.is_numeral()) s = val.get_decimal_string(40);
             else if (val.is_algebraic()) s = val.get_decimal_string(40);
             else { std::ostringstream o; o << val; s = o.str(); }
+#endif
             if (!s.empty() && s.back() == '?') s.pop_back();
             v.input_names.push_back(g.input_names[i]);
             v.input_values.push_back(s);
